@@ -1,2 +1,157 @@
--- Driver stub for C11 (replaced when the property's model driver is written).
-def main : IO Unit := IO.println "C11: no driver yet"
+import TsVerif.Common.IO
+import TsVerif.Common.Tree
+import TsVerif.C11.Judge
+/-!
+Driver for C11: reads the case stream written by `harness/src/bin/c11.rs` (streams of matches and
+captures the real cursor produced under different settings + `chk` lines), decides every `chk`
+with the Lean judges and prints
+`<case>#<n> clause=<a..h> judge=<ok|FAIL kind…> corr=<ok|DIFF|-> n1=<len> n2=<len>`.
+-/
+open TsVerif TsVerif.C11 TsGen
+
+structure St where
+  id : String := ""
+  text : Array Nat := #[]
+  ms : List (String × List Match) := []
+  cs : List (String × List CapEv) := []
+  preds : List (Nat × TextPred) := []
+  cur : String := ""
+  curM : Array Match := #[]
+  curC : Array CapEv := #[]
+  inStream : Bool := false
+  nchk : Nat := 0
+
+def mkRange (v : List Nat) : TSRange :=
+  match v with
+  | [sb, eb, sr, sc, er, ec] => { start_point := ⟨sr, sc⟩, end_point := ⟨er, ec⟩, start_byte := sb, end_byte := eb }
+  | _ => default
+
+partial def parseCaps (v : List Nat) (acc : Array Cap) : List Cap :=
+  match v with
+  | idx :: node :: sb :: eb :: sr :: sc :: er :: ec :: rest =>
+    parseCaps rest (acc.push { idx := idx, node := node, r := mkRange [sb, eb, sr, sc, er, ec] })
+  | _ => acc.toList
+
+def parseM (ws : List String) : Option Match :=
+  let v := ws.map natOf
+  match v with
+  | id :: pat :: a :: b :: c :: d :: e :: f :: depth :: hp :: g :: h :: i :: j :: k :: l :: _n :: rest =>
+    some { id := id, pat := pat, root := mkRange [a, b, c, d, e, f], depth := depth, hasPar := hp == 1,
+           par := mkRange [g, h, i, j, k, l], caps := parseCaps rest #[] }
+  | _ => none
+
+def parseC (ws : List String) : Option CapEv :=
+  match ws.map natOf with
+  | [id, pat, k, idx, node, sb, eb, sr, sc, er, ec] =>
+    some { id := id, pat := pat, k := k, cap := { idx := idx, node := node, r := mkRange [sb, eb, sr, sc, er, ec] } }
+  | _ => none
+
+def unhexOrEmpty (s : String) : Bytes := if s == "-" then [] else unhexBytes s
+
+/-- `pred <pat> <op> (c <idx> | s <hex>)*` ↦ the `TextPredicateCapture` the Rust binding builds. -/
+def parsePred (ws : List String) : Option (Nat × TextPred) :=
+  match ws with
+  | pat :: op :: args =>
+    match opFlags op with
+    | none => none
+    | some (fam, pos, all) =>
+      let rec pairs : List String → List (String × String)
+        | k :: v :: rest => (k, v) :: pairs rest
+        | _ => []
+      let ps := pairs args
+      match fam, ps with
+      | "eq", [("c", i), ("c", j)] => some (natOf pat, .eqCapture (natOf i) (natOf j) pos all)
+      | "eq", [("c", i), ("s", s)] => some (natOf pat, .eqString (natOf i) (unhexOrEmpty s) pos all)
+      | "match", [("c", i), ("s", s)] => some (natOf pat, .matchString (natOf i) (unhexOrEmpty s) pos all)
+      | "anyof", ("c", i) :: rest =>
+        some (natOf pat, .anyString (natOf i) (rest.map fun p => unhexOrEmpty p.2) pos)
+      | _, _ => none
+  | _ => none
+
+def getM (s : St) (n : String) : List Match := ((s.ms.find? fun p => p.1 == n).map (·.2)).getD []
+def getC (s : St) (n : String) : List CapEv := ((s.cs.find? fun p => p.1 == n).map (·.2)).getD []
+def isMStream (s : St) (n : String) : Bool := !(getM s n).isEmpty
+
+def incOf (kind : String) (v : List Nat) : Option TSRange :=
+  match kind, v with
+  | "b", [sb, eb, _, _, _, _] => some (setByteRange defaultRange sb eb)
+  | "p", [_, _, sr, sc, er, ec] => some (setPointRange defaultRange ⟨sr, sc⟩ ⟨er, ec⟩)
+  | _, _ => none
+
+def verdict (ok : Bool) (why : String) : String := if ok then "ok" else "FAIL " ++ why
+
+def runChk (s : St) (ws : List String) : String :=
+  let head := s!"{s.id}#{s.nchk}"
+  match ws with
+  | "a" :: m :: c :: kind :: rest =>
+    let inc := incOf kind (rest.map natOf)
+    let ms := getM s m; let cs := getC s c
+    let ok := judgeA ms cs inc
+    s!"{head} clause=a judge={verdict ok (explainA ms cs inc)} corr=- n1={ms.length} n2={cs.length} ranged={inc.isSome}"
+  | ["h", m, c] =>
+    let ms := getM s m; let cs := getC s c
+    let ok := judgeA ms cs none
+    s!"{head} clause=h judge={verdict ok (explainA ms cs none)} corr=- n1={ms.length} n2={cs.length}"
+  | "b" :: u :: r :: mode :: kind :: rest =>
+    let v := rest.map natOf
+    let rng := (incOf kind v).getD defaultRange
+    let us := getM s u; let rs := getM s r
+    let keep := if mode == "w" then keepWithin rng else keepIntersect rng
+    let ok := judgeB keep us rs
+    let exp := us.filter keep
+    s!"{head} clause=b judge={verdict ok s!"range-{mode}{kind} expected={exp.length} got={rs.length}"} corr=- n1={us.length} n2={rs.length} mode={mode}{kind}"
+  | ["c", a, b] =>
+    if isMStream s a || isMStream s b then
+      let x := getM s a; let y := getM s b
+      s!"{head} clause=c judge={verdict (judgeCm x y) "reexec-matches-differ"} corr=- n1={x.length} n2={y.length}"
+    else
+      let x := getC s a; let y := getC s b
+      s!"{head} clause=c judge={verdict (judgeCc x y) "reexec-captures-differ"} corr=- n1={x.length} n2={y.length}"
+  | ["d", u, l, ex, k, kind] =>
+    if kind == "m" then
+      let x := getM s u; let y := getM s l
+      s!"{head} clause=d judge={verdict (judgeDm x y (ex == "1")) s!"silent-drop-matches limit={k}"} corr=- n1={x.length} n2={y.length} exceeded={ex} limit={k}"
+    else
+      let x := getC s u; let y := getC s l
+      s!"{head} clause=d judge={verdict (judgeDc x y (ex == "1")) s!"silent-drop-captures limit={k}"} corr=- n1={x.length} n2={y.length} exceeded={ex} limit={k}"
+  | ["e", u, e, pos] =>
+    let x := getC s u; let y := getC s e
+    s!"{head} clause=e judge={verdict (judgeE x y (natOf pos)) "remove-match"} corr=- n1={x.length} n2={y.length}"
+  | ["g", u, d, depth] =>
+    let x := getM s u; let y := getM s d
+    let full := decide ((x.filter fun m => decide (m.depth ≤ natOf depth)).map Match.key = y.map Match.key)
+    s!"{head} clause=g judge={verdict (judgeG x y (natOf depth)) "start-depth"} corr=- n1={x.length} n2={y.length} complete={full}"
+  | ["f", u, p] =>
+    let x := getM s u; let y := getM s p
+    let ok := judgeF miniRegex s.preds s.text x y
+    let viaImpl := decide ((filterBy (evalImpl miniRegex) s.preds s.text x).map Match.key = y.map Match.key)
+    let viaFixed := decide ((filterBy (evalFixed miniRegex) s.preds s.text x).map Match.key = y.map Match.key)
+    let why := if viaImpl then "any-fallthrough" else "predicates-other"
+    let corr := if viaImpl then (if viaFixed then "ok" else "ok-unfixed") else if viaFixed then "ok-fixed" else "DIFF"
+    s!"{head} clause=f judge={verdict ok why} corr={corr} n1={x.length} n2={y.length} npred={s.preds.length}"
+  | _ => s!"{head} clause=? judge=FAIL badchk corr=-"
+
+def step (s : St) (line : String) : IO St := do
+  match line.splitOn " " with
+  | ["case", id] => return { id := id }
+  | ["text", h] => return { s with text := (unhexBytes h).toArray }
+  | ["text"] => return { s with text := #[] }
+  | ["stream", n] => return { s with cur := n, curM := #[], curC := #[], inStream := true }
+  | "m" :: ws => match parseM ws with
+    | some m => return { s with curM := s.curM.push m }
+    | none => return s
+  | "c" :: ws => match parseC ws with
+    | some c => return { s with curC := s.curC.push c }
+    | none => return s
+  | ["end"] =>
+    return { s with ms := (s.cur, s.curM.toList) :: s.ms, cs := (s.cur, s.curC.toList) :: s.cs, inStream := false }
+  | "pred" :: ws => match parsePred ws with
+    | some p => return { s with preds := s.preds ++ [p] }
+    | none => IO.println s!"{s.id}#pred clause=f judge=FAIL unparsed-predicate corr=-"; return s
+  | "chk" :: ws =>
+    IO.println (runChk s ws)
+    return { s with nchk := s.nchk + 1 }
+  | _ => return s
+
+def main : IO Unit := do
+  let _ ← foldLines (← IO.getStdin) ({} : St) step
